@@ -52,6 +52,10 @@ func c09ProcProgram2(rng *gen.Rng, i int) (string, bool) {
 	if rng.Chance(1, 3) {
 		ops := []string{"/", "%", "*", "-"}
 		e := proc.EBin{Op: ops[rng.Intn(4)], L: proc.ENum{V: 10}, R: proc.EVar{Name: []string{"match", "cap", "matchLength"}[rng.Intn(3)]}}
+		if rng.Chance(1, 3) {
+			// the built-in number on the LEFT of an arithmetic operator whose right operand is text
+			e = proc.EBin{Op: ops[rng.Intn(4)], L: proc.EVar{Name: "matchLength"}, R: []proc.Expr{proc.EVar{Name: "match"}, proc.EStr{V: "b"}, proc.EVar{Name: "cap"}, proc.EStr{V: "3"}}[rng.Intn(4)]}
+		}
 		if transform {
 			ss = append(ss, proc.SReturn{X: e})
 		} else {
@@ -67,6 +71,10 @@ func c09ProcProgram2(rng *gen.Rng, i int) (string, bool) {
 	body := proc.RenderStmts(ss, rng.Bool())
 	pats := []string{"at least 1 digit", "(maybe digit) = cap letter", "any", "at least 0 'a' 'b'", "whole word", "(at most 2 digit) = cap ','"}
 	pat := pats[rng.Intn(len(pats))]
+	if transform && rng.Chance(1, 3) {
+		// captures that carry the names of built-ins of the process language: inside a transform the built-in is meant
+		pat = []string{"(maybe digit) = matchLength letter", "(at most 2 digit) = match ','", "(letter = matchLength) maybe (digit = match)", "(any = matchNumber) maybe (any = matchLength)"}[rng.Intn(4)]
+	}
 	if transform {
 		with := "f '|' value"
 		extra := ""
